@@ -5,8 +5,7 @@ Proofs/AgreeFnNumeric.lean — src/value/numeric_types/default_numeric_types.rs 
 `Model/Value.lean` (`checkedAdd` …, `checkedAbs`, `intFromUsize`, `intIntoUsize`) and the functions the
 Model's builtins apply (`Model/Builtin.lean`, `Model/F64.lean`). The std methods of the primitives
 (`i64::checked_add`, `f64::ln`, …) are the boundary here (Prelude `Rs.i64_*`, Lean `Float`, libm bindings).
-Not translated: `from_hex_str` (`Result<_, ()>`), `bit_shift_left/right` (`as u32` + `wrapping_shl`),
-`random` (cfg attributes inside the body).
+Not translated: `from_hex_str` (`Result<_, ()>`), `random` (cfg attributes inside the body).
 -/
 import EvalexprVerif.Generated.FnNumeric
 import EvalexprVerif.Translate.Lemmas
@@ -78,6 +77,37 @@ theorem fn_i64_bitor_agree (a b : Int64) : Gen.i64.bitor a b = a ||| b := rfl
 theorem fn_i64_bitxor_agree (a b : Int64) : Gen.i64.bitxor a b = a ^^^ b := rfl
 theorem fn_i64_bitnot_agree (a : Int64) : Gen.i64.bitnot a = ~~~a := rfl
 
+/-! `bit_shift_left` / `bit_shift_right`: `self.wrapping_shl(*rhs as u32)` (shift by the low 6 bits of `rhs`) against Lean's
+`Int64` shifts (shift by `rhs.toBitVec.smod 64`), which the Model's `shl` / `shr` builtins use -/
+/-- the shift amount Lean's `Int64` shifts use (`k.toBitVec.smod 64`) is `k mod 64` on the bit pattern: the low 6 bits -/
+theorem smod64_toNat (k : Int64) : (k.toBitVec.smod 64).toNat = k.toBitVec.toNat % 64 := by
+  have h : (k.toBitVec.smod 64).toInt = k.toBitVec.toInt.fmod 64 := by
+    rw [BitVec.toInt_smod]; rfl
+  have h64 : (64 : Int) > 0 := by decide
+  rw [Int.fmod_eq_emod_of_nonneg _ (by omega)] at h
+  have hlt := (k.toBitVec.smod 64).isLt
+  have hk := k.toBitVec.isLt
+  have e1 := BitVec.toInt_eq_toNat_cond (k.toBitVec.smod 64)
+  have e2 := BitVec.toInt_eq_toNat_cond k.toBitVec
+  split at e1 <;> split at e2 <;> omega
+
+theorem cast_u32_mod (k : Int64) : ((Rs.cast k : UInt32).toNat) % 64 = k.toBitVec.toNat % 64 := by
+  show (k.toUInt64.toUInt32.toNat) % 64 = _
+  rw [UInt64.toNat_toUInt32]
+  have : k.toUInt64.toNat = k.toBitVec.toNat := rfl
+  rw [this]
+  omega
+
+theorem fn_i64_bit_shift_left_agree (a b : Int64) : Gen.i64.bit_shift_left a b = a <<< b := by
+  apply Int64.toBitVec_inj.1
+  rw [Int64.toBitVec_shiftLeft, BitVec.shiftLeft_eq', smod64_toNat]
+  show a.toBitVec <<< ((Rs.cast b : UInt32).toNat % 64) = _
+  rw [cast_u32_mod]
+theorem fn_i64_bit_shift_right_agree (a b : Int64) : Gen.i64.bit_shift_right a b = a >>> b := by
+  apply Int64.toBitVec_inj.1
+  rw [Int64.toBitVec_shiftRight, BitVec.sshiftRight_eq', smod64_toNat]
+  show a.toBitVec.sshiftRight ((Rs.cast b : UInt32).toNat % 64) = _
+  rw [cast_u32_mod]
 theorem fn_i64_from_usize_agree (n : Nat) : Gen.i64.from_usize n = intFromUsize n := by
   simp only [Gen.i64.from_usize, intFromUsize, Rs.try_into]
   split <;> rfl
